@@ -120,13 +120,15 @@ InResult(id, ws) == \E i \in 1..Len(dl) : dl[i].ws = ws /\ dl[i].g = em[id].g /\
 Lost == {<<id, ws>> \in OnTime \X (0..(IF maxTs < 0 THEN 0 ELSE maxTs)) :
             ws \in Covers(em[id].ts) /\ ws >= S0 /\ ws + cfg.size <= FinalWm /\ ~InResult(id, ws)}
 
-\* C02(c): late row inside the allowance of an interval delivered before it was emitted => re-delivered with it
-LateOwed == {id \in 1..Len(em) :
-               /\ em[id].late /\ em[id].fut = 0 /\ cfg.al > 0 /\ cfg.kind = "tumbling"
-               /\ LET ws == AlignTo(em[id].ts, cfg.size) IN
-                    /\ \E i \in 1..Len(dl) : dl[i].ws = ws /\ dl[i].at < em[id].at
-                    /\ ws + cfg.size + cfg.al > em[id].wmAt
-                    /\ ~\E i \in 1..Len(dl) : dl[i].ws = ws /\ dl[i].at > em[id].at /\ id \in SeqSet(dl[i].ids)}
+\* C02(c): late row inside the allowance of an interval delivered before it was emitted => re-delivered with it.  Sliding intervals
+\* overlap: the row is owed to EVERY interval containing it that had been delivered and was still inside its allowance
+LateOwed == {p \in (1..Len(em)) \X (0..(IF maxTs < 0 THEN 0 ELSE maxTs)) :
+               LET id == p[1]  ws == p[2] IN
+               /\ em[id].late /\ em[id].fut = 0 /\ cfg.al > 0 /\ cfg.kind \in {"tumbling", "sliding"}
+               /\ ws \in Covers(em[id].ts)
+               /\ \E i \in 1..Len(dl) : dl[i].ws = ws /\ dl[i].at < em[id].at
+               /\ ws + cfg.size + cfg.al > em[id].wmAt
+               /\ ~\E i \in 1..Len(dl) : dl[i].ws = ws /\ dl[i].at > em[id].at /\ id \in SeqSet(dl[i].ids)}
 
 QuiesceCode ==
   IF OnTime = {} \/ idled THEN ""       \* after an idle flush the watermark is the wall clock: which later rows are on time is not known to the trace
